@@ -10,6 +10,7 @@ import common
 from common import sx, q, jq, cname, cnum, ok
 from units import U, BLOCK
 import props.c01 as c01
+import props.c05 as c05
 
 ID = 'C17'
 LEVEL = 'proof'
@@ -657,6 +658,139 @@ def sole_winner_shared(ctx, stream, count, rng):
     ctx.streams[stream] = dict(cases=n, deviations=bad)
 
 
+# ------------------------------------------------------------------ RankedToCondorcetVotes: model tie + the exact effect of ONE moved ballot
+# (Proofs/RaisesBallot_proofs.v: pairwise_move_exact / pairwise_move_cands / copeland_ballot_monotone / minimax_ballot_monotone are
+# about Model/Hybrids.v [pairwise]; unit C05+2 is that model on the wire)
+def rc_flat(items):
+    return [x for it in items for x in (it if isinstance(it, list) else [it])]
+
+
+def rc_replace(prof, bi, b2, x):
+    """x units of ballot type bi become ballot b2 (merged with an equal ballot: a Python dict has one entry per ballot)"""
+    out = []
+    for i, (b, w) in enumerate(prof):
+        if i == bi:
+            if w - x > 0:
+                out.append([b, w - x])
+        else:
+            out.append([b, w])
+    for y in out:
+        if pa_py_ballot(y[0]) == pa_py_ballot(b2):
+            y[1] += x
+            return out
+    out.append([b2, x])
+    return out
+
+
+def gen_rc_profile(rng):
+    m = rng.randint(2, 6)
+    ids = list(range(1, m + 1))
+    prof, seen = [], set()
+    sp = rng.choice([0, 0.2, 0.5])
+    for _ in range(rng.randint(1, 7)):
+        b = gen_pa_ballot(rng, ids, sp)
+        if pa_py_ballot(b) in seen:
+            continue
+        seen.add(pa_py_ballot(b))
+        prof.append([b, rng.choice([1, rng.randint(1, 4), rng.randint(1, 4), rng.randint(0, 12)])])
+    return prof
+
+
+def rc_convert(prof):
+    import votelib.convert as conv
+    import evalreg
+    d = conv.RankedToCondorcetVotes().convert(evalreg.to_python('ranked', prof))
+    return {(cnum(a), cnum(b)): n for (a, b), n in d.items()}
+
+
+PAIRWISE_MONO = ['copeland_raw', 'copeland_2o', 'minimax_winvotes', 'minimax_margins', 'minimax_pwo']
+
+
+def rc_move_check(ctx, stream, case):
+    """the theorem's statement on the implementation: moving w (on a rank of its own) up past the items b[j:i] of ballot bi, for x units
+    of that ballot, adds x * (number of times c was jumped) to count(w, c), takes the same from count(c, w), changes nothing else and keeps
+    the candidates of the dictionary; a sole Copeland / minimax winner w stays the sole winner.  -> True if it fails"""
+    import evalreg
+    prof, bi, i, j, x = case['profile'], case['ballot'], case['i'], case['j'], case['x']
+    b = prof[bi][0]
+    w = b[i]
+    jumped = rc_flat(b[j:i])
+    b2 = b[:j] + [w] + b[j:i] + b[i + 1:]
+    p2 = rc_replace(prof, bi, b2, x)
+    r0 = common.call_impl(lambda: rc_convert(prof), 10)
+    r1 = common.call_impl(lambda: rc_convert(p2), 10)
+    if r0[0] != 'ok' or r1[0] != 'ok':
+        if r0[0] != r1[0]:
+            ctx.checker_false += 1
+            ctx.report(stream, case, str(r1[1:]), str(r0[1:]), 'RankedToCondorcetVotes: one of the two conversions failed: %s / %s' % (r0, r1))
+            return True
+        return False
+    d0, d1 = r0[1], r1[1]
+    why = None
+    if w in jumped:
+        return False          # outside the statement (w ranked twice)
+    for (a, c) in set(d0) | set(d1):
+        exp = d0.get((a, c), 0) + x * ((1 if a == w else 0) * jumped.count(c) - jumped.count(a) * (1 if c == w else 0))
+        if d1.get((a, c), 0) != exp:
+            why = 'count(%s, %s) is %s after %s moved up past %s on %d unit(s) of ballot %s, expected %s (was %s)' % (
+                cname(a), cname(c), d1.get((a, c), 0), cname(w), jumped, x, b, exp, d0.get((a, c), 0))
+            break
+    if not why and {k for pr in d0 for k in pr} != {k for pr in d1 for k in pr}:
+        why = 'the candidates of the pairwise dictionary changed: %s -> %s' % (sorted({k for pr in d0 for k in pr}), sorted({k for pr in d1 for k in pr}))
+    if not why and case.get('rule'):
+        import votelib.evaluate.condorcet as cd
+        ev = cd.EVALUATORS[case['rule']]
+        py = lambda d: {(cname(a), cname(c)): n for (a, c), n in d.items()}     # noqa
+        e0 = common.call_impl(lambda: ev.evaluate(py(d0), 1), 10)
+        if e0[0] == 'ok' and sole_winner(e0[1]) == w:
+            ctx.dist['rc-move:sole-winner-moved'] += 1
+            e1 = common.call_impl(lambda: ev.evaluate(py(d1), 1), 10)
+            if not (e1[0] == 'ok' and sole_winner(e1[1]) == w):
+                why = '%s: sole winner %s no longer the sole winner after moving up past %s on ballot %s: %s' % (case['rule'], cname(w), jumped, b, e1[1:])
+    if why:
+        ctx.checker_false += 1
+        ctx.report(stream, case, str(sorted(d1.items())), str(sorted(d0.items())), why)
+        return True
+    return False
+
+
+def rc_streams(ctx, count, rng):
+    ties, n, bad = [], 0, 0
+    for _ in range(count):
+        prof = gen_rc_profile(rng)
+        if not prof:
+            continue
+        ctx.dist['stream:rc-move-exact'] += 1
+        ties.append(dict(unit='hybrid', method='to_condorcet', profile=prof, n=1))
+        rule = rng.choice(PAIRWISE_MONO)
+        # the candidate to move: the sole winner under a pairwise rule when there is one (half of the time), else anybody
+        w0 = None
+        if rng.random() < 0.6:
+            import votelib.evaluate.condorcet as cd
+            r = common.call_impl(lambda: cd.EVALUATORS[rule].evaluate({(cname(a), cname(c)): k for (a, c), k in rc_convert(prof).items()}, 1), 10)
+            w0 = sole_winner(r[1]) if r[0] == 'ok' else None
+        moves = [(bi, i, j) for bi, (b, _) in enumerate(prof) for i, it in enumerate(b) if not isinstance(it, list) and (w0 is None or it == w0)
+                 for j in range(i)]
+        rng.shuffle(moves)
+        for bi, i, j in moves[:4]:
+            wt = prof[bi][1]
+            for x in {1, wt} if wt >= 1 else {0}:
+                case = dict(kind='rc-move', profile=prof, ballot=bi, i=i, j=j, x=x, rule=rule)
+                n += 1
+                ctx.evaluations += 1
+                ctx.nontrivial.add(common.case_hash(case))
+                if any(isinstance(it, list) for it in prof[bi][0][j:i]):
+                    ctx.dist['rc-move:jumps-a-shared-rank'] += 1
+                if rc_move_check(ctx, 'rc-move-exact', case):
+                    bad += 1
+                elif rng.random() < 0.15:
+                    b = prof[bi][0]
+                    ties.append(dict(unit='hybrid', method='to_condorcet', n=1,
+                                     profile=rc_replace(prof, bi, b[:j] + [b[i]] + b[j:i] + b[i + 1:], x)))
+    ctx.streams['rc-move-exact'] = dict(cases=n, deviations=bad)
+    ctx.differential('rc-tie', ties, c05.hyb_line, c05.hyb_impl, canon=c05.hyb_canon, nontrivial=lambda c: True)
+
+
 def corpus():
     import os, json, glob
     for p in sorted(glob.glob(os.path.join(common.VERIF, 'corpus', ID, '*.json'))):
@@ -700,6 +834,11 @@ def run_corpus_case(ctx, c, stream='corpus'):
     elif k == 'sole-shared':
         ctx.evaluations += 1
         shared_case_check(ctx, stream, c)
+    elif k == 'rc-move':
+        ctx.evaluations += 1
+        rc_move_check(ctx, stream, c)
+    elif c.get('unit') == 'hybrid':
+        ctx.differential(stream, [c], c05.hyb_line, c05.hyb_impl, canon=c05.hyb_canon, nontrivial=lambda c: True)
     elif c.get('unit') == 'preference_addition':
         ctx.differential(stream, [c], pa_model_line, pa_impl, canon=pa_canon, nontrivial=pa_nontrivial, spec=pa_spec, known_class=pa_diff_known)
     elif c.get('unit') == 'highest_averages':
@@ -731,6 +870,7 @@ def explore(ctx, widen=1):
     sole_winner_ranked(ctx, 'sole-winner-beatpath', ctx.n(3000, 20000) * widen, rng, beatpath=True)
     sole_winner_shared(ctx, 'sole-winner-shared-ranks', ctx.n(2500, 30000) * widen, rng)
     sole_winner_cardinal(ctx, 'sole-winner-cardinal', ctx.n(1500, 15000) * widen, rng)
+    rc_streams(ctx, ctx.n(2500, 30000) * widen, rng)
 
 
 def replay(ctx, case, stream=None):
